@@ -178,9 +178,106 @@ Print Assumptions C03_emptied_volume_pinned_refuted.
 
 (* ... the repaired one rebuilds it: the header, then erased bytes only *)
 Theorem C03_emptied_volume_rebuilt : forall pol ffs3 h buf h' b,
-  supported_fv (v_guid h) = true -> v_resizable h = false ->
+  supported_fv (v_guid h) = true -> v_resizable h = false -> 60 <= v_dataoff h ->
   asm_vol_v true pol ffs3 h buf [] = Ok (h', b) ->
   zlen b = v_length h /\ v_length h' = v_length h /\
   zskipn (v_dataoff h) b = zrepeat pol (v_length h - v_dataoff h).
 Proof. exact asm_vol_empty_fixed. Qed.
 Print Assumptions C03_emptied_volume_rebuilt.
+
+(* ---- the pinned code violates the property on a one-file volume; examples ---- *)
+
+Definition no_codec (_ : Z) (_ : bytes) : option bytes := None.
+Definition no_nvar (_ : bytes) : option bytes := None.
+Definition id_bytes (b : bytes) : bytes := b.
+
+(* a 192-byte FFS2 volume holding one raw file 00000001-AB00-0000-0000-000000000077 *)
+Definition tiny_image : bytes := [0; 0; 0; 0; 0; 0; 0; 0; 0; 0; 0; 0; 0; 0; 0; 0; 120; 229; 140; 140; 61; 138; 28; 79; 153; 53; 137; 97; 133; 195; 45; 211; 192; 0; 0; 0; 0; 0; 0; 0; 95; 70; 86; 72; 0; 8; 0; 0; 72; 0; 207; 236; 0; 0; 0; 2; 3; 0; 0; 0; 64; 0; 0; 0; 0; 0; 0; 0; 0; 0; 0; 0; 1; 0; 0; 0; 0; 171; 0; 0; 0; 0; 0; 0; 0; 0; 0; 119; 1; 170; 192; 0; 28; 0; 0; 248; 1; 2; 3; 4; 255; 255; 255; 255; 255; 255; 255; 255; 255; 255; 255; 255; 255; 255; 255; 255; 255; 255; 255; 255; 255; 255; 255; 255; 255; 255; 255; 255; 255; 255; 255; 255; 255; 255; 255; 255; 255; 255; 255; 255; 255; 255; 255; 255; 255; 255; 255; 255; 255; 255; 255; 255; 255; 255; 255; 255; 255; 255; 255; 255; 255; 255; 255; 255; 255; 255; 255; 255; 255; 255; 255; 255; 255; 255; 255; 255; 255; 255; 255; 255; 255; 255; 255; 255; 255; 255; 255; 255; 255; 255; 255; 255].
+Definition tiny_guid : bytes := [1; 0; 0; 0; 0; 171; 0; 0; 0; 0; 0; 0; 0; 0; 0; 119].
+
+Definition save_of (fx : bool) (ops : list op) : outcome bytes :=
+  edit_and_save no_codec no_codec id_bytes id_bytes no_nvar fx 8 ops tiny_image.
+Definition files_of (img : bytes) : outcome (list node) :=
+  match parse_region no_codec id_bytes no_nvar 8 img with
+  | Ok (elems, _) => Ok (find_elems (SText false (guid_string tiny_guid)) elems)
+  | Err e => Err e | Panic p => Panic p | Fuel => Fuel
+  end.
+
+(* remove of the only file: the pinned Assemble saves the input unchanged, the file is still there *)
+Theorem C03_remove_only_file_pinned_refuted :
+  exists img ops a, edit_and_save no_codec no_codec id_bytes id_bytes no_nvar false 8 ops img = Ok img /\
+    ops = [ORemove false a] /\
+    (exists elems pol m, parse_region no_codec id_bytes no_nvar 8 img = Ok (elems, pol) /\
+                         find_elems (SText false a) elems = [m]).
+Proof.
+  exists tiny_image, [ORemove false (guid_string tiny_guid)], (guid_string tiny_guid).
+  split; [vm_compute; reflexivity|]. split; [reflexivity|].
+  destruct (parse_region no_codec id_bytes no_nvar 8 tiny_image) as [[elems pol]| | |] eqn:E;
+    try (vm_compute in E; discriminate).
+  exists elems, pol. vm_compute in E. inversion E; subst. eexists. split; [reflexivity|].
+  vm_compute. reflexivity.
+Qed.
+Print Assumptions C03_remove_only_file_pinned_refuted.
+
+(* with the repair the file is gone and the size is kept *)
+Example ex_remove_only_file_fixed :
+  match save_of true [ORemove false (guid_string tiny_guid)] with
+  | Ok out => (zlen out =? zlen tiny_image) && negb (bytes_eqb out tiny_image) &&
+              match files_of out with Ok [] => true | _ => false end
+  | _ => false
+  end = true.
+Proof. vm_compute. reflexivity. Qed.
+
+Example ex_guid_text : guid_string tiny_guid =
+  [48;48;48;48;48;48;48;49;45;65;66;48;48;45;48;48;48;48;45;48;48;48;48;45;48;48;48;48;48;48;48;48;48;48;55;55].
+Proof. vm_compute. reflexivity. Qed.
+Example ex_guid_parse_lower :
+  guid_parse (map lower (guid_string tiny_guid)) = Some tiny_guid.
+Proof. vm_compute. reflexivity. Qed.
+
+(* tree-level examples: one volume, two files, selection by GUID text (any letter case) and by the
+   name of a UI section *)
+Definition ex_fh (g0 t : Z) : filehdr := mkFile (g0 :: skipn 1 tiny_guid) 0 170 t 0 28 248 28 24 None.
+Definition ex_ui : node := NSec (mkSec 16 21 16 4 None [83; 104; 101; 108; 108] 0 [] None 0) [1; 2; 3] [].
+Definition ex_pe : node := NSec (mkSec 8 16 8 4 None [] 0 [] None 1) [8; 0; 0; 16; 77; 90; 1; 2] [].
+Definition ex_f1 : node := NFile (ex_fh 1 7) [1; 1] [ex_pe; ex_ui].
+Definition ex_f2 : node := NFile (ex_fh 2 6) [2; 2; 2] [].
+Definition ex_nf : node := NFile (ex_fh 9 7) [9] [].
+Definition ex_vh : volhdr :=
+  mkVol [] FFS2 192 0 2048 72 0 0 0 2 [(3, 64)] [] 0 72 0 false 0.
+Definition ex_elems : list node := [NPad 0 [7; 7]; NVol ex_vh [] [ex_f1; ex_f2]].
+Definition ex_sel (fvp : bool) : sel := SText fvp (map lower (guid_string tiny_guid)).
+Definition ex_name : sel := SText true [115; 72; 69; 76; 76].   (* "sHELL" *)
+
+Example ex_shape : forallb (shp 0) ex_elems = true.
+Proof. reflexivity. Qed.
+Example ex_find_guid : find_elems (ex_sel true) ex_elems = [ex_f1].
+Proof. vm_compute. reflexivity. Qed.
+Example ex_find_name : find_elems ex_name ex_elems = [ex_f1].
+Proof. vm_compute. reflexivity. Qed.
+Example ex_insert_after :
+  insert_run IAfter ex_name ex_nf ex_elems = Ok [NPad 0 [7; 7]; NVol ex_vh [] [ex_f1; ex_nf; ex_f2]].
+Proof. vm_compute. reflexivity. Qed.
+Example ex_replace_ffs :
+  insert_run IReplace (ex_sel true) ex_nf ex_elems = Ok [NPad 0 [7; 7]; NVol ex_vh [] [ex_nf; ex_f2]].
+Proof. vm_compute. reflexivity. Qed.
+Example ex_remove :
+  remove_run 4 (ex_sel false) 255 false ex_elems = Ok [NPad 0 [7; 7]; NVol ex_vh [] [ex_f2]].
+Proof. vm_compute. reflexivity. Qed.
+(* a PEIM (type 6) is replaced by a pad file of its size even without remove_pad *)
+Example ex_remove_peim :
+  match remove_run 4 (SText false (guid_string (2 :: skipn 1 tiny_guid))) 255 false ex_elems with
+  | Ok [_; NVol _ _ [f; p]] => (file_type p =? 240) && (zlen (node_buf p) =? 28) && is_pad p
+  | _ => false
+  end = true.
+Proof. vm_compute. reflexivity. Qed.
+Example ex_replace_pe32 :
+  match replace_pe32_run (ex_sel false) [77; 90; 5; 6; 7] ex_elems with
+  | Ok [_; NVol _ _ [NFile _ _ [NSec _ b []; u]; _]] => bytes_eqb b [9; 0; 0; 16; 77; 90; 5; 6; 7]
+  | _ => false
+  end = true.
+Proof. vm_compute. reflexivity. Qed.
+Example ex_ambiguous :
+  insert_run IEnd (SText true (guid_string (2 :: skipn 1 tiny_guid))) ex_nf
+             [NVol ex_vh [] [ex_f2]; NVol ex_vh [] [ex_f2]] = Err E_MULTI.
+Proof. vm_compute. reflexivity. Qed.
